@@ -240,18 +240,20 @@ Proof.
       rewrite Hp3 in Hfa. inversion Hfa; subst c. unfold clear_focus. rewrite Ef. reflexivity. }
   destruct Hstep4 as [h4 [Hrun4 CB4]]. rewrite Hrun4.
   assert (CB : cells_by h0 h4 (remove_F p w s (w_next cw))).
-  { unfold remove_F. eapply cells_by_trans with (h2 := h3); eauto. }
-  assert (HI4 : hinv D h4) by exact (hinv_remove D h0 h4 p w cw cp l1 l3 s HI Hw Hwp Hp Hch Hs Hunq CB).
+  { unfold remove_F, remove_Fg. eapply cells_by_trans with (h2 := h3); eauto. }
+  assert (HI4 : hinv D h4)
+    by exact (hinv_remove D h0 h4 p w cw cp l1 l3 s (clear_focus w) (clear_focus_keeps w) (or_intror (clear_focus_focus w))
+                          HI Hw Hwp Hp Hch Hs Hunq CB).
   assert (HFw : remove_F p w s (w_next cw) w cw = set_parent (set_next cw None) None)
-    by exact (rm_F_w D h0 h4 p w cw cp l1 l3 s HI Hw Hwp Hp Hch Hs CB).
+    by exact (rm_F_w D h0 h4 p w cw cp l1 l3 s (clear_focus w) HI Hw Hwp Hp Hch Hs CB).
   assert (Hw4 : findw h4 w = Some (set_parent (set_next cw None) None)).
   { rewrite (cells_by_some h0 h4 _ w cw CB Hw). rewrite HFw. reflexivity. }
   assert (K4 : keeps h0 h4).
   { eapply cells_by_keeps; eauto. intros a c Hfa.
-    destruct (rm_F_flags h0 h4 p w cw l1 s Hs CB a c) as [Hr1 [_ Hr3]]. split; [|auto].
+    destruct (rm_F_flags h0 h4 p w cw l1 s (clear_focus w) (clear_focus_keeps w) Hs CB a c) as [Hr1 [_ Hr3]]. split; [|auto].
     destruct (Pos.eq_dec a w) as [Ea|Ea].
     - subst a. rewrite Hw in Hfa. inversion Hfa; subst c. rewrite HFw. right. reflexivity.
-    - left. exact (rm_F_parent h0 h4 p w cw l1 s Hs CB a c Ea). }
+    - left. exact (rm_F_parent h0 h4 p w cw l1 s (clear_focus w) (clear_focus_keeps w) Hs CB a c Ea). }
   (* the final expose of the parent *)
   unfold bind at 1. rewrite (getw_run h4 w _ Hw4). cbn [w_visible set_parent set_next].
   assert (Hfin : forall h', rx_only h4 h' ->
